@@ -82,7 +82,10 @@ class Banner:
         if mx is None:
             return None
         protocol = min(re.findall(cls.RX_PROTOCOL, mx.group(1)))
-        protocol = (int(protocol[0]), int(protocol[1]))
+        try:
+            protocol = (int(protocol[0]), int(protocol[1]))
+        except ValueError:  # Python refuses to convert digit strings beyond a few thousand digits; a line with such a version number is not a banner.
+            return None
         software = (mx.group(3) or '').strip() or None
         if software is None and (mx.group(2) or '').startswith('-'):
             software = ''
